@@ -125,16 +125,16 @@ pub mod verif {
         }
         N_EVENTS += 1;
     }
-    /// is [a, a+n) inside some interval made R|W|X by a successful mprotect, or inside a
+    /// is the byte at `a` inside some interval made R|W|X by a successful mprotect, or inside a
     /// live RWX mapping handed out by mmap?
-    pub fn writable(a: usize, n: usize) -> bool {
+    pub fn writable_byte(a: usize) -> bool {
         unsafe {
             let mut i = 0;
             while i < MAXPROT {
                 if i < N_MPROTECT
                     && PROT_BITS[i] == (PROT_READ | PROT_WRITE | PROT_EXEC)
                     && PROT_START[i] <= a
-                    && a + n <= PROT_START[i] + PROT_LEN[i]
+                    && a < PROT_START[i] + PROT_LEN[i]
                 {
                     return true;
                 }
@@ -142,7 +142,7 @@ pub mod verif {
             }
             let mut k = 0;
             while k < MAXMAP {
-                if LIVE_ON[k] && LIVE_ADDR[k] <= a && a + n <= LIVE_ADDR[k] + LIVE_LEN[k] {
+                if LIVE_ON[k] && LIVE_ADDR[k] <= a && a < LIVE_ADDR[k] + LIVE_LEN[k] {
                     return true;
                 }
                 k += 1;
@@ -150,10 +150,27 @@ pub mod verif {
             false
         }
     }
+    /// is EVERY byte of [a, a+n) writable (by the union of all successful mprotect calls and live
+    /// mappings)?  ∀ by nondeterministic witness: use in positive (asserted) positions only.
+    pub fn writable(a: usize, n: usize) -> bool {
+        let w: usize = kani::any();
+        if w >= n {
+            return true;
+        }
+        writable_byte(a + w)
+    }
+    /// set when a flush (= the end of a write, C17) covers a byte that was not writable at that moment
+    pub static mut FLUSH_UNPROT: bool = false;
     /// The flush primitive of the model (bound onto `__clear_cache` by `#[kani::stub]`).
     pub unsafe fn flush(start: *mut u8, end: *mut u8) {
         let s = start as usize;
         let e = end as usize;
+        if e > s {
+            let w: usize = kani::any();
+            if w < e - s && !writable_byte(s + w) {
+                FLUSH_UNPROT = true;
+            }
+        }
         if N_FLUSH < MAXFLUSH {
             FLUSH_START[N_FLUSH] = s;
             FLUSH_END[N_FLUSH] = e;
